@@ -1,0 +1,10 @@
+//go:build verif
+// +build verif
+
+package linker
+
+import "github.com/evanw/esbuild/internal/config"
+
+// Thin setter (no logic) used by the verification harness in /verif (C18):
+// the synthetic linker context gets the source-map mode of the case.
+func (v *VerifLinker) SetSourceMapMode(mode config.SourceMap) { v.c.options.SourceMap = mode }
